@@ -547,7 +547,9 @@ def entry_reads(prog, ctx, loc, closure, cache):
         for xv in placements:
             for s_ in sites:
                 for st_ in sxl.states_at(loc, s_):
-                    vals = [concretise(c_, xv, xname, {})[0] for c_ in st_.conds]
+                    # conditions that do not involve the argument (which search is used) do not restrict what is admitted
+                    vals = [concretise(c_, xv, xname, {})[0] for c_ in st_.conds
+                            if isinstance(c_, sp.Basic) and any(sy_.name == xname for sy_ in c_.free_symbols)]
                     if all(v_ == S.true for v_ in vals):
                         admitted.append(xv)
                     elif not any(v_ == S.false for v_ in vals):
